@@ -127,7 +127,7 @@ def _caps(ctx, ncaps, prefix='', unit_norm=True):
     for i in range(ncaps):
         xs.append(unit(ctx, '%sx%d_' % (prefix, i)) if unit_norm else ctx.reals('%sx%d_' % (prefix, i), 3))
         cm = ctx.real('%scm%d' % (prefix, i))
-        ctx.add(z3.And(zt(cm) > -2, zt(cm) < 2, zt(cm) != 0))
+        ctx.add(z3.And(zt(cm) > -2, zt(cm) < 2))          # cm = 0 included: the cap that holds its centre only
         _hint(ctx, z3.Or([zt(cm) == z3.RealVal(q) for q in ('1/4', '1/2', '1', '3/2', '-1/4', '-1/2', '-1', '-3/2', '1/5', '-1/5', '2/5', '-2/5', '9/5', '-9/5')]))
         cms.append(cm)
     return xs, cms
